@@ -14,6 +14,7 @@ struct RefOp {
     bool dirbc;
     int nr, nt;
     std::vector<ld> arr, att, art, adet, beta_r, alpha_r; // indexed i*nt + j (own numbering)
+    std::vector<ld> art_mag; // cancellation-free magnitude of art (for error scales)
     std::vector<double> r, th;
     bool is_dirichlet_row(int i) const { return i == nr - 1 || (i == 0 && dirbc); }
     int own(int i, int j) const { return i * nt + ((j % nt) + nt) % nt; }
@@ -31,6 +32,7 @@ struct RefOp {
         arr.resize(nr * nt);
         att.resize(nr * nt);
         art.resize(nr * nt);
+        art_mag.resize(nr * nt);
         adet.resize(nr * nt);
         beta_r.resize(nr);
         alpha_r.resize(nr);
@@ -49,6 +51,7 @@ struct RefOp {
                 arr[k] = 0.5L * alpha_r[i] * (Jtt * Jtt + Jrt * Jrt) / ad;
                 att[k] = 0.5L * alpha_r[i] * (Jtr * Jtr + Jrr * Jrr) / ad;
                 art[k] = alpha_r[i] * (-(Jtt * Jtr) - Jrt * Jrr) / ad;
+                art_mag[k] = fabsl(alpha_r[i]) * (fabsl(Jtt * Jtr) + fabsl(Jrt * Jrr)) / ad;
             }
         }
     }
@@ -70,8 +73,11 @@ struct RefOp {
         return 0.25L * (h1 + h2) * (k_before(j) + k_after(j)) * adet[own(i, j)];
     }
     // stencil row of node (i,j): list of (library index, coefficient)
-    void row(int i, int j, std::vector<std::pair<int, ld>>& e) const
+    // mag=true: entries are cancellation-free magnitudes |A_ij| (all non-negative), used only to scale errors
+    void row(int i, int j, std::vector<std::pair<int, ld>>& e, bool mag = false) const
     {
+        const std::vector<ld>& art = mag ? art_mag : this->art;
+        const ld sgn = mag ? -1.0L : 1.0L; // flips the negative off-diagonal signs in magnitude mode
         e.clear();
         if (is_dirichlet_row(i)) {
             e.emplace_back(lib(i, j), 1.0L);
@@ -89,24 +95,24 @@ struct RefOp {
         ld w;
         w = 0.5L * (k1 + k2) / h1 * (arr[c] + arr[inner_own]);
         diag += w;
-        e.emplace_back(inner_lib, -w);
+        e.emplace_back(inner_lib, -sgn * w);
         w = 0.5L * (k1 + k2) / h2 * (arr[c] + arr[own(i + 1, j)]);
         diag += w;
-        e.emplace_back(lib(i + 1, j), -w);
+        e.emplace_back(lib(i + 1, j), -sgn * w);
         w = 0.5L * (h1 + h2) / k1 * (att[c] + att[own(i, j - 1)]);
         diag += w;
-        e.emplace_back(lib(i, j - 1), -w);
+        e.emplace_back(lib(i, j - 1), -sgn * w);
         w = 0.5L * (h1 + h2) / k2 * (att[c] + att[own(i, j + 1)]);
         diag += w;
-        e.emplace_back(lib(i, j + 1), -w);
+        e.emplace_back(lib(i, j + 1), -sgn * w);
         e.emplace_back(lib(i, j), diag);
         // mixed derivative terms
         if (!across) {
-            e.emplace_back(lib(i - 1, j - 1), -0.25L * (art[own(i - 1, j)] + art[own(i, j - 1)]));
+            e.emplace_back(lib(i - 1, j - 1), -sgn * 0.25L * (art[own(i - 1, j)] + art[own(i, j - 1)]));
             e.emplace_back(lib(i - 1, j + 1), +0.25L * (art[own(i - 1, j)] + art[own(i, j + 1)]));
         }
         e.emplace_back(lib(i + 1, j - 1), +0.25L * (art[own(i + 1, j)] + art[own(i, j - 1)]));
-        e.emplace_back(lib(i + 1, j + 1), -0.25L * (art[own(i + 1, j)] + art[own(i, j + 1)]));
+        e.emplace_back(lib(i + 1, j + 1), -sgn * 0.25L * (art[own(i + 1, j)] + art[own(i, j + 1)]));
     }
     int n() const { return nr * nt; }
     // Ax and |A||x| indexed by library node index
@@ -120,9 +126,12 @@ struct RefOp {
             for (int j = 0; j < nt; j++) {
                 row(i, j, e);
                 ld s = 0, a = 0;
-                for (auto& p : e) {
+                for (auto& p : e)
                     s += p.second * (ld)x[p.first];
-                    a += fabsl(p.second) * fabsl((ld)x[p.first]);
+                if (absAx) {
+                    row(i, j, e, true);
+                    for (auto& p : e)
+                        a += fabsl(p.second) * fabsl((ld)x[p.first]);
                 }
                 int k = lib(i, j);
                 Ax[k] = s;
